@@ -262,7 +262,8 @@ fn san(n: &mut Node, c: &mut SanCtx, nl: &mut u16, nm: &mut u16, allow_fail: boo
             c.loop_depth -= 1;
         }
         Node::For { words, body } => {
-            *words %= 4;
+            // 0-3 words; 4 = a word list that is a failing command substitution expanding to nothing
+            *words %= 5;
             c.loop_depth += 1;
             san(body, c, nl, nm, allow_fail, depth + 1);
             c.loop_depth -= 1;
@@ -506,6 +507,7 @@ fn r_command(n: &Node, sf: &mut Surface, out: &mut String) {
             out.push_str("for i");
             match (*words, sf.next(3)) {
                 (0, _) => out.push_str(" in"),
+                (4, _) => out.push_str(" in $(st 3)"),
                 (w, _) => {
                     out.push_str(" in");
                     for k in 0..w {
@@ -1067,7 +1069,12 @@ impl<'a> Model<'a> {
             }
             Node::For { words, body } => {
                 let mut result = Sym::Known(0);
-                for _ in 0..*words {
+                if *words == 4 {
+                    // XCU 2.9.4: a for loop over no items has status zero, whatever the status of
+                    // a command substitution in the word list
+                    self.class("for-over-nothing-after-failing-substitution");
+                }
+                for _ in 0..(if *words == 4 { 0 } else { *words }) {
                     self.class("loop-iteration");
                     p.steps += 1;
                     let f = self.exec(p, body);
